@@ -8,6 +8,12 @@ CHECKS = {
  'C01': dict(engine='E1-enum', technique='bounded-exhaustive enumeration of hint terms x witness objects x sampler-draw residues x configurations against a reference model (small-scope model checking of the implementation)',
    text='Every hint term of a stated grammar (all container families, unions, literals, tuples, type[], TypeVars, NewType, Annotated, protocols, generics; nesting level <= 2 quick / <= 3 thorough) x every model-validated conforming object with containers of size <= 3 x every residue class of the 32-bit draw x 5 configurations x 3 entry points is executed on the real code; any rejection, exception or warning is a violation. Coverage statement, not a proof for unbounded nesting/size.',
    note='Trusted: the reference predicate sat_all (60 lines, self-tested against a truth table); CPython; the draw seam codemain.getrandbits (asserted present).', ref='5/C01'),
+ 'C02': dict(engine='E1-enum', technique='bounded-exhaustive enumeration of hint terms x structured violators (one damaged position class each) x draw residues x is_random, reachability of every sequence index, draw-count and generated-source scan',
+   text='For every enumerated hint term: every generated object with NOT sat_some (violation where no sampling is involved, or every item/key/value bad) must be rejected by 3 entry points for every residue of the draw and both is_random settings; for every sequence of length 1..3 with exactly one bad item (also under 6 kinds of conforming single-item parents) some residue must reject, and with is_random=False exactly the i=0 case; at most one draw per check; the draw appears in generated code only as r % len(x).',
+   note='Trusted: sat_some (weakest reading under which rejection is promised); joint reachability in nested sampled sequences is deliberately not asserted.', ref='5/C02'),
+ 'C03': dict(engine='E1-enum', technique='bounded-exhaustive differential execution of six entry points under one scripted draw over hint terms x objects x residues x 10 configurations',
+   text='Six entry points (is_bearable, die_if_unbearable, TypeHint.is_bearable/die_if_unbearable, decorated parameter, decorated return) are executed for every enumerated (hint, object, residue, configuration) and must reach one verdict; a rejection must be exactly the configured class for its pith kind (warning classes emitted, call proceeds), name the hint (up to hint equality) and carry the object as culprits[0]; any other exception (desynchronisation included) is a violation.',
+   note='Configuration axis covered pairwise (10 configurations), all of them on a representative core of hints; message text beyond naming the hint is not asserted.', ref='5/C03'),
 }
 NOT_YET = {}
 for i in range(1, 21):
